@@ -1156,8 +1156,12 @@ func (r *Runner) execBackup(op *Op) *Fail {
 		if strings.HasSuffix(e.Name(), ".hint") {
 			r.F.BackupWithHint++
 		}
-		if fi, err := e.Info(); err == nil && fi.Size() > 64<<20 {
-			r.Stats.Label("backup-holds-file>64MiB")
+		// the copy holds each file with exactly the bytes written to it: Backup shrinks pre-extended (mmap) files to
+		// their logical size before copying - a copied file longer than what was written is an extension that leaked
+		if fi, err := e.Info(); err == nil && r.IO != nil {
+			if fs, ok := r.IO.Get(filepath.Join(r.Dir, e.Name())); ok && fi.Size() > fs.Logical {
+				return failf("backup-holds-extended-file", "the backup's %s is %d bytes, but only %d bytes were ever written to the source file (a pre-extended file was copied without being shrunk first)", e.Name(), fi.Size(), fs.Logical)
+			}
 		}
 	}
 	opt := r.Opt
